@@ -878,7 +878,9 @@ def run(ctx, args):
             per_tgt_un[f[1]] = per_tgt_un.get(f[1], 0) + 1
             n_un += 1
             ctx.report("layout:unexplained:" + line, "the three computations disagree and no known cause explains it",
-                       {"line": line, "real": r, "repairs_tried": tried})
+                       {"type": go_type(parse(f[2])), "target": f[1], "line": line, "real": r,
+                        "meaning": "a=<compile-time size>,<align>,<offsets> b=<LLVM …> c=<descriptor size>,<Align>,<FieldAlign>,<PtrBytes>,<offsets> e=<referenced descriptor size>,<align>",
+                        "repairs_tried": tried})
 
     ctx.log("cause attribution done: %s, unexplained %d" % (spec_fail_keys, len(unexplained)))
     # ---- 4. C-compatible types on amd64: gcc is the reference for the real numbers and for the model's cLayout
